@@ -3,13 +3,14 @@ from . import n2k, catalog, traffic
 
 
 def history(rng, n_items=None, sources=None, claims=True, unknown=True, incomplete=True, pad="rand",
-            all_defs=False, multi_def_bias=False, repeat_seq=False):
+            all_defs=False, multi_def_bias=False, repeat_seq=False, max_active=3, shared_names=False, burst_fast=0):
     """Returns a list of events {"f": [pgn, src, dst, prio, datahex], "k": kind, "m": message#, "i": frame#, "n": frames,
     "whole": payload hex (on the last frame of a complete message)} with fast-packet streams interleaved."""
     catalog.load()
     n_items = n_items or rng.choice([3, 6, 12, 25, 40])
     sources = sources or rng.sample(range(0, 253), rng.randrange(1, 5))
     seqs = {}
+    known_names = []
     complete_last = {}
     lanes = []
     mno = 0
@@ -66,7 +67,17 @@ def history(rng, n_items=None, sources=None, claims=True, unknown=True, incomple
                 lane.append(e)
             lanes.append(lane)
         elif k < 0.80 and claims:
-            it = traffic.claim_frame(rng, src)
+            if shared_names and known_names and rng.random() < 0.4:
+                # a NAME that was already claimed, now from this (possibly different) address: a device that moved
+                mfg_, uniq_ = rng.choice(known_names)
+                it = traffic.claim_frame(rng, src, mfg_, uniq_)
+                it["data"], it["name"] = n2k.claim_payload(uniq_, mfg_, 1, 2, 130, 25, 0, 4, 1)
+            else:
+                it = traffic.claim_frame(rng, src)
+                if shared_names:
+                    uniq_ = rng.getrandbits(21)
+                    it["data"], it["name"] = n2k.claim_payload(uniq_, it["mfg"], 1, 2, 130, 25, 0, 4, 1)
+                    known_names.append((it["mfg"], uniq_))
             lanes.append([{"f": [it["pgn"], src, 255, 6, it["data"].hex()], "k": "claim", "m": mno, "i": 0, "n": 1,
                            "whole": it["data"].hex(), "mfg": it["mfg"], "name": it["name"]}])
         elif k < 0.88 and unknown:
@@ -77,7 +88,26 @@ def history(rng, n_items=None, sources=None, claims=True, unknown=True, incomple
             lanes.append([{"f": [it["pgn"], src, it["dst"], prio, it["data"].hex()], "k": "single", "m": mno, "i": 0, "n": 1,
                            "whole": it["data"].hex()}])
         mno += 1
-    return interleave(rng, lanes)
+    if burst_fast:
+        # many devices answering at once (e.g. a product-information request): that many transfers are in flight together
+        pgn = rng.choice([126996, 126998, 129029])
+        used = set()
+        burst = []
+        for _ in range(burst_fast):
+            src = rng.choice([x for x in range(0, 250) if x not in used])
+            used.add(src)
+            payload = traffic.rbytes(rng, rng.choice([20, 43, 134])) if pgn != 126996 else catalog.payload_for(rng, catalog.BY_PGN[126996][0])
+            frames = n2k.fast_frames(payload, rng.randrange(8), 0xFF)
+            lane = []
+            for i, f in enumerate(frames):
+                e = {"f": [pgn, src, 255, 6, f.hex()], "k": "fast", "m": mno, "i": i, "n": len(frames)}
+                if i == len(frames) - 1:
+                    e["whole"] = payload.hex()
+                lane.append(e)
+            mno += 1
+            burst.append(lane)
+        return interleave(rng, burst, burst_fast + 1) + interleave(rng, lanes, max_active)
+    return interleave(rng, lanes, max_active)
 
 
 _multi = []
@@ -90,12 +120,12 @@ def multi_single():
     return _multi
 
 
-def interleave(rng, lanes):
+def interleave(rng, lanes, max_active=3):
     out = []
     active = []
     pending = list(lanes)
     while pending or active:
-        if pending and (len(active) < 3 and (not active or rng.random() < 0.5)):
+        if pending and (len(active) < max_active and (not active or rng.random() < (0.5 if max_active <= 3 else 0.9))):
             lane = pending.pop(0)
             key = tuple(lane[0]["f"][:3]) if lane[0]["k"] == "fast" else None
             if key is not None:
